@@ -1682,11 +1682,10 @@ where
         }
 
         // deal with the empty object
-        match self.get_next_token([b'"', b'}'], 1) {
+        match self.skip_space() {
             Some(b'"') => {}
             Some(b'}') => return perr!(self, GetInEmptyObject),
-            None => return perr!(self, EofWhileParsing),
-            Some(_) => unreachable!(),
+            _ => return perr!(self, ExpectObjectKeyOrEnd),
         }
 
         loop {
